@@ -266,3 +266,59 @@ pub fn c18_t_named_threebyte() {
 pub fn c18_t_ascii_lengths_64() {
     layer1_n(1, 64, &BUF0, &BUF1, &BUF2, &BUF3);
 }
+
+// ---- mixed letters: a candidate may be a run of ANOTHER letter ('b'), whose true
+// Damerau-Levenshtein distance to a^n is max(n, m) (n or m substitutions plus the length
+// difference; no transposition applies).  A candidate of nearly the received length can
+// therefore be far away: replacing the kernel by a comparison of lengths is detected.
+static BBUF1: [u8; 64] = [b'b'; 64];
+static BBUF2: [u8; 64] = [b'b'; 64];
+static BBUF3: [u8; 64] = [b'b'; 64];
+
+pub fn dl_stub_mixed(a: &str, b: &str) -> usize {
+    let (x, y) = (a.as_bytes(), b.as_bytes());
+    if x.is_empty() || y.is_empty() || x[0] != y[0] {
+        if x.len() > y.len() { x.len() } else { y.len() }
+    } else {
+        x.len().abs_diff(y.len())
+    }
+}
+
+#[cfg(kani)]
+#[kani::proof]
+#[kani::unwind(5)]
+#[kani::stub(strsim::damerau_levenshtein, dl_stub_mixed)]
+#[kani::stub(alloc::fmt::format, fmt_marker)]
+pub fn c18_t_mixed_letters() {
+    let n: usize = kani::any();
+    kani::assume(n <= 30);
+    let m: [usize; 3] = kani::any();
+    kani::assume(m[0] <= 30 && m[1] <= 30 && m[2] <= 30);
+    let other: [bool; 3] = kani::any();
+    let k: usize = kani::any();
+    kani::assume(k <= 3);
+    let received = s(&BUF0, n, 1);
+    let all = [
+        if other[0] { s(&BBUF1, m[0], 1) } else { s(&BUF1, m[0], 1) },
+        if other[1] { s(&BBUF2, m[1], 1) } else { s(&BUF2, m[1], 1) },
+        if other[2] { s(&BBUF3, m[2], 1) } else { s(&BUF3, m[2], 1) },
+    ];
+    let out = did_you_mean(received, &all[..k]);
+    let mut best: Option<usize> = None;
+    let mut i = 0;
+    while i < k {
+        let d = if other[i] { if n > m[i] { n } else { m[i] } } else { n.abs_diff(m[i]) };
+        if best.map_or(true, |b| d < b) {
+            best = Some(d);
+        }
+        i += 1;
+    }
+    let want = match (budget(received.len()), best) {
+        (Some(bd), Some(d)) => d <= bd,
+        _ => false,
+    };
+    assert!(out.is_empty() == !want, "C18: a suggestion is made iff the received string has more than 3 bytes and an accepted string lies within the budget");
+    kani::cover!(!want && k == 3 && n > 3 && other[0] && other[1] && other[2] && m[0] == n, "same length, other letter: no suggestion");
+    kani::cover!(want && k == 2 && other[0] && !other[1], "the far candidate of another letter does not hide the near one");
+    core::mem::forget(out);
+}
